@@ -30,6 +30,24 @@ Fixpoint table_answer (t : list (str * hook_ans)) (a : str) : hook_ans :=
 Definition table_listener (t : list (str * hook_ans)) : str -> option hook_ans :=
   answer_listener (table_answer t).
 
+(** The reply line of a deny: fmt.Sprintf("%03d %s", ErrorCode, ErrorMsg). [%03d]: decimal, padded with zeros to
+    width 3, the sign counting towards the width (Go: -5 -> "-05"). Fuelled digit loop: 20 digits cover int64. *)
+Fixpoint dec_digits (fuel : nat) (n : N) (acc : str) : str :=
+  match fuel with
+  | O => acc
+  | S f => let acc' := (48 + n mod 10)%N :: acc in
+           if (n <? 10)%N then acc' else dec_digits f (n / 10)%N acc'
+  end.
+Definition pad3 (sign : str) (ds : str) : str :=
+  sign ++ repeat 48%N (3 - length sign - length ds) ++ ds.
+Definition fmt_03d (z : Z) : str :=
+  match z with
+  | Z0 => pad3 [] (dec_digits 20 0 [])
+  | Zpos p => pad3 [] (dec_digits 20 (Npos p) [])
+  | Zneg p => pad3 [45%N] (dec_digits 20 (Npos p) [])
+  end.
+Definition deny_line (code : Z) (text : str) : str := fmt_03d code ++ 32%N :: text.
+
 (** What calling a Lua handler (CallByParam with Protect) produced. *)
 Inductive lua_value :=
   | LNil | LFalse | LTrue | LNumber | LString | LTable | LFunction
